@@ -99,12 +99,17 @@ fn one_history(seed: u64, steps: usize) {
                     store.insert_frame(&reg).expect("import registration");
                     model.insert(base, M { id: base, ctx: ZERO_CONTEXT, topic: "xs.context".into(), ttl: TTL::Forever, born_short: false });
                     ctxs.push(base);
+                    unregistered.retain(|u| *u != base);
+                    removed.retain(|(r, _)| *r != base);
                 }
                 let adj = Scru128Id::from(base.to_u128() + 1);
                 let mut reg = Frame::builder("xs.context", ZERO_CONTEXT).ttl(TTL::Forever).build();
                 reg.id = adj;
                 store.insert_frame(&reg).expect("import registration");
                 model.insert(adj, M { id: adj, ctx: ZERO_CONTEXT, topic: "xs.context".into(), ttl: TTL::Forever, born_short: false });
+                // the usable contexts are a function of the stored frames: the imported registration counts at once (C07, C20)
+                let f = store.append(Frame::builder("t", adj).build()).unwrap_or_else(|e| panic!("[{}] C07/C20: append into an imported context before any reopen: {}", what, e));
+                model.insert(f.id, M { id: f.id, ctx: adj, topic: "t".into(), ttl: TTL::Forever, born_short: false });
                 rt.block_on(store.wait_for_gc());
                 reopen_n += 1;
                 let to = d.path().join(format!("s{}", reopen_n));
